@@ -392,6 +392,19 @@ func Adversarial() []AdvSet {
 		b := File{Path: "adv/samepkg_b.proto", Package: "adv.samepkg", GoPackage: GenCheckBase + "adv_same_package", Msgs: []M{{Name: "B", Fields: []F{{Name: "v", Num: 1, Kind: Sint32, Rep: true}}}}, Enums: []E{{Name: "BE", Values: []EV{{"BE_ZERO", 0}}}}}.Build()
 		add(advFD("adv_same_package", "two files generated into one Go package", ExpFiles, []string{"adv/samepkg_a.proto", "adv/samepkg_b.proto"}, b, a))
 	}
+	{
+		// two unrelated files in different Go packages that declare a message with the SAME Go name at different positions
+		// of their flattened message lists (anything the generator remembers per message name across files shows here:
+		// generated together the second file must be byte-identical to generated alone)
+		bank := File{Path: "adv/samename_bank.proto", Package: "adv.samename.bank", GoPackage: GenCheckBase + "adv_same_name_other_pkg/bank", Msgs: []M{
+			{Name: "Balance", Fields: []F{{Name: "amount", Num: 1, Kind: Uint64}}},
+			{Name: "Supply", Fields: []F{{Name: "b", Num: 1, Kind: Message, TypeName: ".adv.samename.bank.Balance", Rep: true}}},
+			{Name: "Params", Fields: []F{{Name: "enabled", Num: 1, Kind: Bool}, {Name: "by_denom", Num: 2, Kind: Message, TypeName: ".adv.samename.bank.Balance", Map: true, KeyKind: String}}}}}.Build()
+		gov := File{Path: "adv/samename_gov.proto", Package: "adv.samename.gov", GoPackage: GenCheckBase + "adv_same_name_other_pkg/gov", Msgs: []M{
+			{Name: "Params", Fields: []F{{Name: "quorum", Num: 1, Kind: String}, {Name: "tally", Num: 2, Kind: Message, TypeName: ".adv.samename.gov.Tally"}}},
+			{Name: "Tally", Fields: []F{{Name: "yes", Num: 1, Kind: Sint64}}, Nested: []M{{Name: "Params", Fields: []F{{Name: "x", Num: 1, Kind: Int32}}}}}}}.Build()
+		add(advFD("adv_same_name_other_pkg", "same message Go name in two unrelated files / Go packages, at different flattened positions", ExpFiles, []string{"adv/samename_bank.proto", "adv/samename_gov.proto"}, bank, gov))
+	}
 	for _, variant := range []string{"same_gopkg", "other_gopkg"} {
 		name := "adv_import_public_" + variant
 		base := File{Path: "adv/" + name + "_base.proto", Package: "adv." + name + ".base", GoPackage: GenCheckBase + name + "/base", Msgs: []M{{Name: "Base", Fields: []F{{Name: "v", Num: 1, Kind: Int32}}}}, Enums: []E{{Name: "BaseEnum", Values: []EV{{"BASE_ZERO", 0}}}}}
